@@ -687,7 +687,8 @@ def _check_ops(sp, groups):
             if t[0] == 'delete' and not int(t[2]):
                 sp.failed = 'deleted'
             elif t[0] == 'process':
-                if res == 'raised KeyError' and sp.failed != 'deleted':
+                # (callbacks that call back into the world may ask for deletions of their own at any time)
+                if res == 'raised KeyError' and sp.failed != 'deleted' and not sp.reentered:
                     return [{'sig': 'process-keeps-failing',
                              'what': 'process() raised KeyError again on a later frame'}]
                 sp.failed = True
